@@ -312,8 +312,12 @@ def check_conditional(ctx, objs, f, tokens, parent_use, p):
         if got != exp:
             # is it the resolution or the matching of the resolved atom?
             plain_ok = _impl_match(objs, g, p) == exp
+            # name only the conditional forms whose resolution differs from PMS (root cause, not the whole list)
+            diff = set(getattr(seq[0], "use", None) or ()) ^ set(resolved)
+            wrong = {M.split_use_token(t)[1] for t in diff}
             forms = ",".join(sorted({("!" if t[0] == "!" else "") + "f" + ("(d)" if t[:-1].endswith(")") else "") + t[-1]
-                                     for t in tokens if t[-1] in "?="}))
+                                     for t in tokens if t[-1] in "?="
+                                     and (not wrong or t.strip("!?=").replace("(+)", "").replace("(-)", "") in wrong)}))
             b = f"conditional:resolve:{forms}" if plain_ok else bucket_for(objs, g, p, got, exp)
             ctx.violation(b, case, f"{s} with parent USE {sorted(parent_use)} -> {seq[0]}; match={got}, PMS={exp} "
                                    f"(resolved deps {resolved})")
@@ -539,10 +543,10 @@ def plan(tier, seed):
             tasks.append({"task": name, "slice": i, "nslices": n})
     if tier == "quick":
         for i in range(6):
-            tasks.append({"task": "hyp", "examples": 1500})
+            tasks.append({"task": "hyp", "examples": 1000})
     else:
         for i in range(16):
-            tasks.append({"task": "hyp", "examples": 40000})
+            tasks.append({"task": "hyp", "examples": 20000})
     return tasks
 
 
